@@ -54,7 +54,10 @@ def check_eigh(ctx, A, v, m, kd, detail_extra=None):
         ctx.event('eigh_lanczos_not_observed')
     if m >= kd:
         # exhausted: the lowest Ritz value is the smallest eigenvalue reachable from v
-        ctx.close('eigh.exhausted-reaches-min-reachable', max(0.0, w[0] - lam_reach) / nA, 1e-8,
+        dev = max(0.0, w[0] - lam_reach) / nA
+        ind = kr.paige_indicator(np.asarray(captured['out'][0]), np.asarray(captured['out'][1])) if 'out' in captured else np.inf
+        ctx.event('eigh_exhausted_converged_class' if ind < COND else 'eigh_exhausted_conditioned_class')
+        ctx.close('eigh.exhausted-reaches-min-reachable', dev, 1e-8,
                   f'Krylov space exhausted (dim {kd} <= m={m}) but Ritz value {w[0]} > smallest reachable eigenvalue {lam_reach}', detail)
         ctx.event('eigh_exhausted')
     elif k is not None:
@@ -62,15 +65,9 @@ def check_eigh(ctx, A, v, m, kd, detail_extra=None):
         ind = kr.paige_indicator(np.asarray(al), np.asarray(be))
         g = np.abs(u.conj().T @ u - np.identity(u.shape[1])).max()
         ray = np.abs(np.real(np.einsum('ij,ij->j', u.conj(), A @ u)) - w).max() / nA
-        if ind >= COND:
-            ctx.close('eigh.ritz-vectors-orthonormal[conditioned]', g, 1e-8, 'Ritz vectors not orthonormal below exhaustion', detail)
-            ctx.close('eigh.ritz-rayleigh[conditioned]', ray, 1e-8, 'Rayleigh quotient of a Ritz vector != Ritz value', detail)
-        else:
-            ctx.skip('eigh.ritz-vectors-orthonormal[conditioned]')
-            if g > 1e-8 or ray > 1e-8:
-                ctx.known('C15/converged-ritz-orthogonality',
-                          'Ritz vectors inherit the orthogonality loss of plain Lanczos once a Ritz pair has converged (same mechanism as the '
-                          'C14 finding); Ritz values stay within the bounds', detail)
+        ctx.event('eigh_converged_class' if ind < COND else 'eigh_conditioned_class')
+        ctx.close('eigh.ritz-vectors-orthonormal', g, 1e-8, 'Ritz vectors not orthonormal below exhaustion', detail)
+        ctx.close('eigh.ritz-rayleigh', ray, 1e-8, 'Rayleigh quotient of a Ritz vector != Ritz value', detail)
 
 
 def check_expm(ctx, A, v, dt, m, kd_h, hermitian):
@@ -175,10 +172,10 @@ SPEC = {
     'rule': ('same (n, m) grid as C14 (1<=n<=10, 1<=m<=n+5) x spectra x starts x real/complex x dt in {imaginary, real, complex}: eigh_krylov and '
              'expm_krylov (both flags) on Hermitian matrices, expm_krylov general branch on non-normal matrices; large n; cases with m close to n '
              '(orthogonality-loss regime). Bounds and norm preservation are demanded for every m; exactness where m >= the independently computed '
-             'Krylov dimension (ambiguous exhaustion, residual in [1e-8,1e-5], skipped and counted); Ritz-vector orthonormality where m < Krylov '
-             'dimension and no Ritz pair has converged. distinct = (branch, m vs n, exhausted?, spectrum, start, dtype, dt class).'),
+             'Krylov dimension (ambiguous exhaustion, residual in [1e-8,1e-5], skipped and counted); Ritz-vector orthonormality and Rayleigh quotients where m < Krylov '
+             'dimension (all conditioning classes). distinct = (branch, m vs n, exhausted?, spectrum, start, dtype, dt class).'),
     'deciding': ['eigh.lower-bound', 'eigh.upper-bound', 'expm-h.norm-preserved', 'expm-h.exact-when-exhausted', 'expm-g.exact-when-exhausted',
-                 'eigh.exhausted-reaches-min-reachable', 'eigh.ritz-vectors-orthonormal[conditioned]', 'eigh.ritz-rayleigh[conditioned]'],
+                 'eigh.exhausted-reaches-min-reachable', 'eigh.ritz-vectors-orthonormal', 'eigh.ritz-rayleigh'],
     'workloads': [
         Workload('grid', grid_case, quick=len(GRID) * 6, thorough=len(GRID) * 300),
         Workload('large', large_case, quick=150, thorough=5000),
